@@ -33,6 +33,8 @@ type c18Case struct {
 	Compress bool
 	Box      float64 // >0: justified text box of this width
 	Codes    []int   // glyph ids fed to the subsetter
+	Vert     bool    `json:",omitempty"` // the text is drawn a second time in vertical writing mode with the same font
+	Upright  bool    `json:",omitempty"` // ... with upright glyphs (vertical advances) rather than rotated ones
 	Kind     string
 }
 
@@ -72,6 +74,8 @@ func genC18(kind string) func(r *core.Rng) any {
 		if kind == "justified" || r.Chance(0.3) {
 			c.Box = r.Range(40, 120)
 		}
+		c.Vert = kind == "vertical" || kind == "upright"
+		c.Upright = kind == "upright"
 		for k := r.IntRange(3, 40); k > 0; k-- {
 			c.Codes = append(c.Codes, core.PickI(r, []int{0, 1, 2, 3, 36, 37, 68, 500, r.Intn(3000)}))
 		}
@@ -168,6 +172,7 @@ type c18Font struct {
 	prog     *font.SFNT
 	toUni    map[int]string
 	cffOnly  bool // only the CFF table could be read: no horizontal metrics table
+	encoding string
 }
 
 func c18ReadFont(f *refpdf.File, fd refpdf.Dict) (*c18Font, error) {
@@ -175,8 +180,10 @@ func c18ReadFont(f *refpdf.File, fd refpdf.Dict) (*c18Font, error) {
 	if fd["Subtype"] != refpdf.Name("Type0") {
 		return nil, fmt.Errorf("font subtype %v is not Type0", fd["Subtype"])
 	}
-	if enc := fd["Encoding"]; enc != refpdf.Name("Identity-H") {
-		return nil, fmt.Errorf("encoding %v", enc)
+	if enc, _ := fd["Encoding"].(refpdf.Name); enc != "Identity-H" && enc != "Identity-V" {
+		return nil, fmt.Errorf("encoding %v", fd["Encoding"])
+	} else {
+		out.encoding = string(enc)
 	}
 	if tu, ok := f.Resolve(fd["ToUnicode"]).(*refpdf.Stream); ok {
 		b, err := f.Decode(tu)
@@ -400,11 +407,24 @@ func c18Check(ci any, o *core.Obs) {
 		t = line
 	}
 	const x0, y0 = 20.0, 250.0
+	var tv *canvas.Text
+	if c.Vert {
+		rt := canvas.NewRichText(face)
+		rt.SetWritingMode(canvas.VerticalRL)
+		if c.Upright {
+			rt.SetTextOrientation(canvas.Upright)
+		}
+		rt.WriteString(c.Text)
+		tv = rt.ToText(0, 200, canvas.Left, canvas.Top, 0, 0)
+	}
 	var buf bytes.Buffer
 	if !o.Call("pdf renderer", func() {
 		r := pdf.New(&buf, 210, 297, &pdf.Options{Compress: c.Compress, SubsetFonts: c.Subset})
 		ctx := canvas.NewContext(r)
 		ctx.DrawText(x0, y0, t)
+		if tv != nil {
+			ctx.DrawText(150, y0, tv)
+		}
 		r.Close()
 	}) {
 		return
@@ -419,6 +439,7 @@ func c18Check(ci any, o *core.Obs) {
 		x, y float64
 		adv  int32
 	}
+	var vertical, second []bool
 	t.WalkSpans(func(x, y float64, s canvas.TextSpan) {
 		pen := 0.0
 		for _, g := range s.Glyphs {
@@ -428,9 +449,25 @@ func c18Check(ci any, o *core.Obs) {
 				x, y float64
 				adv  int32
 			}{g.ID, g.Text, x0 + x + pen, y0 + y, g.XAdvance})
+			vertical = append(vertical, false)
+			second = append(second, false)
 			pen += k * float64(g.XAdvance)
 		}
 	})
+	if tv != nil {
+		tv.WalkSpans(func(x, y float64, s canvas.TextSpan) {
+			for _, g := range s.Glyphs {
+				want = append(want, struct {
+					id   uint16
+					r    rune
+					x, y float64
+					adv  int32
+				}{g.ID, g.Text, 0, 0, g.XAdvance})
+				vertical = append(vertical, g.Vertical)
+				second = append(second, true)
+			}
+		})
+	}
 	f := refpdf.Parse(buf.Bytes())
 	f.CheckReferences()
 	pages := f.Pages()
@@ -520,6 +557,14 @@ func c18Check(ci any, o *core.Obs) {
 	for i, sh := range shown {
 		w := want[i]
 		o.Decided(1)
+		wantEnc := "Identity-H"
+		if vertical[i] {
+			wantEnc = "Identity-V"
+		}
+		if sh.font.encoding != wantEnc {
+			fail("encoding", "glyph %d (%q) of the %s text is shown with a font of encoding %s", i, string(w.r), map[bool]string{false: "horizontal", true: "vertical"}[vertical[i]], sh.font.encoding)
+			return
+		}
 		gid := sh.font.gid(sh.code)
 		if !sh.font.cffOnly && gid >= int(sh.font.prog.NumGlyphs()) {
 			fail("glyph-select", "glyph %d (%q): code %d selects glyph %d of an embedded program with %d glyphs", i, string(w.r), sh.code, gid, sh.font.prog.NumGlyphs())
@@ -550,7 +595,7 @@ func c18Check(ci any, o *core.Obs) {
 				return
 			}
 		}
-		if math.Abs(sh.size*25.4/72-0) > 0 {
+		if !second[i] {
 			ptol := 0.02 + float64(i+1)*c.Size*0.3528/1000*1.5
 			if math.Abs(sh.x-w.x) > ptol || math.Abs(sh.y-w.y) > 0.02 {
 				fail("pen-position", "glyph %d (%q): the PDF places it at (%.5g,%.5g) mm, the layout at (%.5g,%.5g) mm", i, string(w.r), sh.x, sh.y, w.x, w.y)
@@ -611,6 +656,8 @@ func init() {
 		Strata: []core.Stratum{
 			{Name: "texts", Quick: 600, Thorough: 20000, Gen: genC18("texts")},
 			{Name: "justified", Quick: 300, Thorough: 8000, Gen: genC18("justified")},
+			{Name: "vertical", Quick: 200, Thorough: 4000, Gen: genC18("vertical"), Note: "the same font used for horizontal text and for rotated text of a vertical writing mode in one document"},
+			{Name: "upright", Quick: 100, Thorough: 1000, Gen: genC18("upright"), WitnessOnly: true, Note: "upright glyphs in a vertical writing mode: the glyphs advance vertically in the layout, but the font is embedded with encoding Identity-H and without vertical metrics (W2/DW2), so a reader advances them horizontally"},
 			{Name: "cff-full", Quick: 100, Thorough: 1000, Gen: genC18("cff-full"), WitnessOnly: true, Note: "CFF fonts embedded without subsetting: character codes are the subsetter's codes and a CIDToGIDMap is written, but for a CIDFontType0 with a non-CID-keyed CFF program a reader takes the CID as the glyph index, so every glyph but .notdef selects a different outline"},
 		},
 		NewCase: func() any { return &c18Case{} },
